@@ -278,9 +278,9 @@ Section Proofs.
       + pose proof (Forall_inv IH) as Hc. pose proof (Forall_inv_tail IH) as Hrest. cbn [snd] in Hc.
         specialize (IHch Hrest).
         rewrite big_prod_cons. rewrite IHch. clear IHch. cbn [fst snd].
-        rewrite big_sum_flat_map.
+        rewrite (big_sum_flat_map L).
         rewrite (big_sum_mul_r L). apply big_sum_ext; intros j _.
-        rewrite big_sum_flat_map.
+        rewrite (big_sum_flat_map L).
         rewrite Hc. unfold brute.
         match goal with |- _ * _ * ?S = _ => set (SS := S) end.
         rewrite (big_sum_mul_l L). rewrite (big_sum_mul_r L). subst SS.
